@@ -5,7 +5,8 @@
 //!   C04 bp <ctor> <words> <len> <op> <positions>     methods of `BalancedParens`
 //!   C04 idx <ctor> <words> <len>                     built index arrays (hook `index_view`)
 //!   C04 free <words> <len> <fc|fo|enc> <positions>   `trees::{find_close,find_open,enclose}`, |words| = ceil(len/64)
-//!   C04 surplus <words> <len> fc <positions>         same, with whole words beyond ceil(len/64) (finding F1 probe)
+//!   C04 surplus <words> <len> fc <positions>         same, with whole words beyond ceil(len/64) (finding F1, repaired)
+//!   C04 big <opens> <closes> <op> <positions>      manual replays only: chain built in the harness, closed-form oracle
 //!   C04 wk <word> <valid_bits>                       word_min_excess / _i32 (/_unrolled, max_excess_rev when 64)
 //!   C04 fcw <word> <start_bit> <excess> <valid_bits> find_close_in_word_fast
 //!   C04 l1b <mins> <excs> <num_l1>                   L1 builder (SSE4.1 in the `simd` build, scalar reference otherwise)
@@ -214,6 +215,52 @@ pub fn exec(a: &[&str]) -> String {
                 })
                 .collect();
             groups.join(";")
+        }
+        // big <opens> <closes> <op> <positions>: a chain of `opens` opens followed by `closes` closes
+        // (len = opens + closes), built in the harness (manual replays only: 2^31 bits = 256 MiB),
+        // answered by BalancedParens::new and compared with the closed-form linear-scan answer.
+        "big" => {
+            let opens: usize = num(a[1]);
+            let closes: usize = num(a[2]);
+            let len = opens + closes;
+            let mut words = vec![0u64; len.div_ceil(64)];
+            for w in 0..opens / 64 {
+                words[w] = u64::MAX;
+            }
+            if opens % 64 != 0 {
+                words[opens / 64] = (1u64 << (opens % 64)) - 1;
+            }
+            let bp = BalancedParens::<Vec<u64>, NoSelect>::new(words, len);
+            let mut out = Vec::new();
+            let mut fails = Vec::new();
+            for p in nums(a[4]) {
+                let exc: i128 = if p < opens { p as i128 + 1 } else { 2 * opens as i128 - p as i128 - 1 };
+                let (got, want) = match a[3] {
+                    "fc" => {
+                        let c = 2 * opens as u128 - 1 - (p as u128).min(2 * opens as u128 - 1);
+                        let want = if p < opens && (c as usize) < len { Some(c as usize) } else { None };
+                        (opt(bp.find_close(p)), opt(want))
+                    }
+                    "depth" => {
+                        let want = if p < len && exc >= 0 { Some(exc as usize) } else { None };
+                        let got = bp.depth(p);
+                        // a negative excess has no depth: only compare where the scan defines one
+                        (opt(got), if p < len && exc < 0 { opt(got) } else { opt(want) })
+                    }
+                    "excess" => (bp.excess(p).to_string(), if p < len { exc.to_string() } else { "0".into() }),
+                    "rank1" => (bp.rank1(p).to_string(), p.min(opens).to_string()),
+                    _ => ("BAD-OP".into(), "BAD-OP".into()),
+                };
+                if got != want {
+                    fails.push(format!("ORACLE-FAIL@{p}:{want}"));
+                }
+                out.push(got);
+            }
+            if fails.is_empty() {
+                list(&out)
+            } else {
+                format!("{} {}", list(&out), fails.join(" "))
+            }
         }
         "wk" => {
             let w = u64::from_str_radix(a[1], 16).unwrap();
@@ -567,18 +614,34 @@ pub fn gen(tier: Tier, r: &mut Rng, emit: &mut dyn FnMut(String)) {
         // find_close_from with other start excesses
         let e = r.range(0, 5) as i64 - 1;
         emit(format!("C04 bp {ctor} {hw} {len} fcf:{e} {pl}"));
-        // surplus whole words beyond ceil(len/64): finding F1 probe (only where the outcome cannot
-        // be an unbounded loop: len % 64 == 0, or len % 8 != 0)
-        if len > 0 && (len % 64 == 0 || len % 8 != 0) && i % 3 == 0 {
+        // surplus whole words beyond ceil(len/64) (finding F1, repaired): every class of len,
+        // including len % 8 == 0 && len % 64 != 0, where the unrepaired code ran a ~2^32-step
+        // loop and returned a position beyond len instead of panicking (few positions there, so
+        // that a run against an unrepaired tree still terminates)
+        if len > 0 && i % 3 == 0 {
             let mut ws2 = ws.clone();
             for _ in 0..r.range(1, 3) {
                 ws2.push(*r.pick(&[0u64, u64::MAX, 0x5555_5555_5555_5555]));
             }
             let hw2 = hex_words(&ws2);
-            for p in 0..len.min(24) {
+            let slow_class = len % 8 == 0 && len % 64 != 0;
+            let npos = if slow_class { 2 } else { 24 };
+            for p in 0..len.min(npos) {
                 emit(format!("C04 surplus {hw2} {len} fc {p}"));
             }
         }
+    }
+
+    // ---- former slow class of F1: len % 8 == 0, len % 64 != 0, surplus words, scan running off the end
+    for (k, len) in [8usize, 16, 24, 40, 72, 120, 136].into_iter().enumerate() {
+        let nw = len.div_ceil(64);
+        let mut ws2: Vec<u64> = (0..nw).map(|_| if k % 2 == 0 { u64::MAX } else { r.next_u64() | 1 }).collect();
+        ws2.push(0);
+        if k % 3 == 0 {
+            ws2.push(u64::MAX);
+        }
+        emit(format!("C04 surplus {} {len} fc 0", hex_words(&ws2)));
+        emit(format!("C04 free {} {len} fc+fo+enc 0,1,{}", hex_words(&ws2), len - 1));
     }
 
     // ---- every residue mod 64 at a few sizes, all six plain constructors
